@@ -207,10 +207,10 @@ PROPS['C09'] = dict(
                GS + 'create_pref_lists_from_other_lists', SPA + 'create_student_lec_lists', FIO + '_set_lecturers', FIO + '_set_lecturer_ranks', FIO + '_create_pairs_row',
                LP + 'upper_lower_constraints', LP + 'stability_constraints', MOD + 'check_stability', BF + 'is_valid', SPA + 'generate_instances', 'generator_ha_sm_hr:Generator_ha_sm_hr.generate_instances', FIO + '_import_from_file', FIO + 'import_model'],
     lemmas=['C05/prefix-filter', 'C13/compose', 'C12/spa-compose', 'C09/rank-keys', 'C09/quota-order', 'C08/shares', 'C08/spread-monotone'], level='other',
-    level_text='composition obligations between the generator-side and reader-side contracts, each proved for all sizes: the tie writer\'s postcondition is the tie reader\'s precondition (C13/compose); generated quotas satisfy 0 <= lower <= target <= upper pointwise (C09/quota-order from the spreading lemmas and the accepted-argument postcondition); project lecturers are in range; every (lecturer, student) key the reader looks up is on that lecturer\'s generated list (C09/rank-keys from C12/spa-compose).  NOT proved deductively (bounded stand-in): the text layer between create_instance and _import_from_file, and that both solving modes are correct on the loaded instance (C01-C07 instantiated)',
+    level_text='composition obligations between the generator-side and reader-side contracts, each proved for all sizes: the tie writer\'s postcondition is the tie reader\'s precondition (C13/compose); generated quotas satisfy 0 <= lower <= target <= upper pointwise (C09/quota-order from the spreading lemmas and the accepted-argument postcondition); project lecturers are in range; every (lecturer, student) key the reader looks up is on that lecturer\'s generated list (C09/rank-keys from C12/spa-compose).  both generate_instances functions hand the writer a well-formed instance, and _import_from_file / import_model read every file of the documented shape without error into a well-formed model (sizes_ok, pairs_ok, derived lists).  NOT proved deductively (bounded stand-in): the two ends of the text layer (create_instance turning its lists into lines; a text line denoting its tokens, T7), and that both solving modes are correct on the loaded instance (C01-C07 instantiated)',
     harness=True, bound='n <= 4 agents per side, all four types, LP with 0-2 criteria (+-pc, +-stab) and brute force on every generated file',
     budget={'quick': 30, 'thorough': 400},
     trusted=[T['T6'], T['T7'], 'T8 file I/O', 'T10 RNG'],
-    assumptions=['text layer and end-to-end solving: bounded stand-in only'])
+    assumptions=['the two ends of the text layer (writer string assembly, lexer) and end-to-end solving: bounded stand-in only'])
 NOT_APPLICABLE = {}
 NOTES = 'see DESIGN.md; ./check Cxx --tier quick|thorough; exit 0 held / 1 VIOLATION / 2 undecided / 3 checker error'
